@@ -57,57 +57,137 @@ type outcome struct {
 	failed         bool
 }
 
-// runInput executes one input on both nodes and applies the oracle.
-func runInput(c *hx.Ctx, in *Input, idx int) *outcome {
-	dirM := filepath.Join(c.OutDir, fmt.Sprintf("n%d-member", idx))
-	dirS := filepath.Join(c.OutDir, fmt.Sprintf("n%d-syncer", idx))
-	o := &outcome{}
-	fail := func(what, clause string, got, want interface{}) {
-		o.failed = true
-		c.Fail(classOf(in, what), clause, in, got, want)
+// runInputs executes the inputs on both kinds of node and applies the oracle to each. Node
+// processes are shared between inputs (start-up of the linked node is several seconds): `par`
+// member processes run side by side, each working through its share of the inputs on one fresh
+// ledger per input; then `par` syncer processes do the same with the sealed blocks.
+func runInputs(c *hx.Ctx, ins []*Input, base int, par int) []*outcome {
+	outs := make([]*outcome, len(ins))
+	for i := range outs {
+		outs[i] = &outcome{}
 	}
-	m, err := runChild(&Job{Role: "member", Dir: dirM, BookKey: in.BookKey, Blocks: in.Blocks, Repeat: in.Repeat, Track: in.Track}, childTimeout)
-	c.Eval()
-	if err != nil || m.Fatal != "" {
-		msg := ""
-		if err != nil {
-			msg = err.Error()
-		} else {
-			msg = m.Fatal
-		}
-		fail("member-crash", "the consensus-member node failed to execute the history", msg, nil)
-		return o
+	fail := func(i int, what, clause string, got, want interface{}) {
+		outs[i].failed = true
+		c.Fail(classOf(ins[i], what), clause, ins[i], got, want)
 	}
-	o.member = m
-	var sealed []Sealed
-	for i, b := range m.Blocks {
-		if b.AddErr != "" {
-			fail("member-rejects-own-block", fmt.Sprintf("member could not execute/submit its own block %d", i+1), b.AddErr, nil)
-			return o
-		}
-		if len(b.Variants) > 0 {
-			// same block, same state, same process: only the runtime's map orders differed
-			fail("maporder", fmt.Sprintf("repeated ExecuteBlock of block %d on the member gave different results", i+1),
-				diffExec(b.Exec, b.Variants[0]), "identical results")
-		}
-		if b.Stored != b.Exec.Root {
-			fail("stored-root", "stored state root differs from the executed one", b.Stored, b.Exec.Root)
-		}
-		sealed = append(sealed, Sealed{Raw: b.Raw, Root: b.Exec.Root})
+	dir := func(i int, role string) string { return filepath.Join(c.OutDir, fmt.Sprintf("n%d-%s", base+i, role)) }
+	if par < 1 {
+		par = 1
 	}
-	s, err := runChild(&Job{Role: "syncer", Dir: dirS, BookKey: in.BookKey, Sealed: sealed, Restart: in.Restart, Track: in.Track}, childTimeout)
-	c.Eval()
-	if err != nil || s.Fatal != "" {
-		msg := ""
-		if err != nil {
-			msg = err.Error()
-		} else {
-			msg = s.Fatal
+	// the syncer processes are started now, so that they initialise while the members work
+	var pre []*nodeProc
+	for p := 0; p < par; p++ {
+		if np, err := startNode(2 * childTimeout); err == nil {
+			pre = append(pre, np)
 		}
-		fail("syncer-crash", "the syncing node failed", msg, nil)
-		return o
 	}
-	o.syncer = s
+	// phase 1: members
+	mjobs := make([]*Job, len(ins))
+	for i, in := range ins {
+		mjobs[i] = &Job{Role: "member", Dir: dir(i, "member"), BookKey: in.BookKey, Blocks: in.Blocks, Repeat: in.Repeat, Track: in.Track}
+	}
+	mouts := runSharded(mjobs, par, nil)
+	// phase 2: syncers, for the inputs whose member produced a chain
+	var sjobs []*Job
+	var sidx []int
+	for i, in := range ins {
+		m := mouts[i]
+		c.Eval()
+		if m.Fatal != "" {
+			fail(i, "member-crash", "the consensus-member node failed to execute the history", m.Fatal, nil)
+			continue
+		}
+		outs[i].member = m
+		var sealed []Sealed
+		ok := true
+		for bi, b := range m.Blocks {
+			if b.AddErr != "" {
+				fail(i, "member-rejects-own-block", fmt.Sprintf("member could not execute/submit its own block %d", bi+1), b.AddErr, nil)
+				ok = false
+				break
+			}
+			if len(b.Variants) > 0 {
+				// same block, same state, same process: only the runtime's map orders differed
+				fail(i, "maporder", fmt.Sprintf("repeated ExecuteBlock of block %d on the member gave different results", bi+1),
+					diffExec(b.Exec, b.Variants[0]), "identical results")
+			}
+			if b.Stored != b.Exec.Root {
+				fail(i, "stored-root", "stored state root differs from the executed one", b.Stored, b.Exec.Root)
+			}
+			sealed = append(sealed, Sealed{Raw: b.Raw, Root: b.Exec.Root})
+		}
+		if !ok {
+			continue
+		}
+		sjobs = append(sjobs, &Job{Role: "syncer", Dir: dir(i, "syncer"), BookKey: in.BookKey, Sealed: sealed, Restart: in.Restart, Track: in.Track})
+		sidx = append(sidx, i)
+	}
+	souts := runSharded(sjobs, par, pre)
+	for k, i := range sidx {
+		m, s := mouts[i], souts[k]
+		c.Eval()
+		if s.Fatal != "" {
+			fail(i, "syncer-crash", "the syncing node failed", s.Fatal, nil)
+			continue
+		}
+		outs[i].syncer = s
+		compare(ins[i], m, s, func(what, clause string, got, want interface{}) { fail(i, what, clause, got, want) }, &outs[i].failed)
+	}
+	return outs
+}
+
+// runSharded splits the jobs round-robin over par node processes running concurrently (processes
+// started beforehand are used first).
+func runSharded(jobs []*Job, par int, pre []*nodeProc) []*ChildOut {
+	res := make([]*ChildOut, len(jobs))
+	if par > len(jobs) {
+		par = len(jobs)
+	}
+	for _, p := range pre[min(par, len(pre)):] {
+		p.abandon()
+	}
+	if len(jobs) == 0 {
+		return res
+	}
+	done := make(chan bool, par)
+	for p := 0; p < par; p++ {
+		go func(p int) {
+			var mine []*Job
+			var idx []int
+			for i := p; i < len(jobs); i += par {
+				mine = append(mine, jobs[i])
+				idx = append(idx, i)
+			}
+			var outs []*ChildOut
+			if p < len(pre) {
+				var err error
+				if outs, err = pre[p].finish(mine); err != nil || len(outs) != len(mine) {
+					outs = nil
+				}
+			}
+			if outs == nil {
+				outs = runChildren(mine, childTimeout)
+			}
+			for k, i := range idx {
+				res[i] = outs[k]
+			}
+			done <- true
+		}(p)
+	}
+	for p := 0; p < par; p++ {
+		<-done
+	}
+	return res
+}
+
+func min(a, b int) int {
+	if a < b {
+		return a
+	}
+	return b
+}
+
+func compare(in *Input, m, s *ChildOut, fail func(what, clause string, got, want interface{}), failed *bool) {
 	if s.Leaf0 != m.Leaf0 {
 		fail("genesis", "genesis state roots differ", s.Leaf0, m.Leaf0)
 	}
@@ -132,8 +212,14 @@ func runInput(c *hx.Ctx, in *Input, idx int) *outcome {
 			fail("balances", fmt.Sprintf("block %d: balances differ", i+1), d, "identical balances")
 		}
 	}
-	if !o.failed {
-		for _, st := range []string{"states", "ledgerevent", "block"} {
+	if !*failed {
+		// state and event stores must be identical; the block store of a node that was restarted
+		// also holds the header-index batches written at start-up, so it is compared only otherwise
+		stores := []string{"states", "ledgerevent"}
+		if in.Restart == 0 {
+			stores = append(stores, "block")
+		}
+		for _, st := range stores {
 			if m.Digests[st] != s.Digests[st] {
 				fail("store-digest:"+st, "store contents differ after the same chain", s.Digests[st], m.Digests[st])
 			}
@@ -142,7 +228,6 @@ func runInput(c *hx.Ctx, in *Input, idx int) *outcome {
 			fail("state-tree", "state merkle trees differ", s.TreeSize, m.TreeSize)
 		}
 	}
-	return o
 }
 
 func diffExec(a, b Exec) map[string]interface{} {
@@ -201,6 +286,8 @@ func coqU256(h string) string {
 	return hx.CoqBytes(b)
 }
 
+var chainBytes int
+
 // chainCase: (write set, hash, root) of every block as the member executed it.
 func chainCase(c *hx.Ctx, in *Input, m *ChildOut) {
 	var blocks []string
@@ -213,10 +300,12 @@ func chainCase(c *hx.Ctx, in *Input, m *ChildOut) {
 		}
 		blocks = append(blocks, fmt.Sprintf("(%s, %s, %s)", hx.CoqList(kvs), coqU256(b.Exec.Hash), coqU256(b.Exec.Root)))
 	}
-	if bytesTotal > 24000 { // SHA-256 inside Coq: ~0.3 ms per byte
-		c.Count("case:chain-skipped-large")
+	// SHA-256 inside Coq costs ~0.3 ms per byte: a budget of write-set bytes per run
+	if chainBytes+bytesTotal > c.N(24000, 400000) {
+		c.Count("case:chain-skipped-budget")
 		return
 	}
+	chainBytes += bytesTotal
 	c.Case(fmt.Sprintf("(ChainCase %s %s)", coqU256(m.Leaf0), hx.CoqList(blocks)),
 		map[string]interface{}{"kind": "chain", "blocks": len(m.Blocks), "write_set_bytes": bytesTotal})
 	c.Count("case:chain")
@@ -322,50 +411,63 @@ func Run(c *hx.Ctx) {
 	// 1. replay
 	var rin Input
 	if c.ReplayInput(&rin) {
-		runInput(c, &rin, 0)
+		runInputs(c, []*Input{&rin}, 0, 1)
 		return
 	}
-	idx := 0
+	var ins []*Input
 	// 2. corpus
 	for _, raw := range c.CorpusInputs() {
-		var in Input
-		if json.Unmarshal(raw, &in) == nil && len(in.Blocks) > 0 {
-			runInput(c, &in, idx)
-			idx++
+		in := &Input{}
+		if json.Unmarshal(raw, in) == nil && len(in.Blocks) > 0 {
+			ins = append(ins, in)
 			c.Count("corpus")
 		}
 	}
+	nCorpus := len(ins)
 	// 3. deterministic probes of the known findings (one fresh key set each)
-	for _, mk := range []func(*gen) *Input{
-		func(g *gen) *Input { return g.probeUnsortedMultisig() },
-		func(g *gen) *Input { return g.probeOntfsErrors(8) },
-		func(g *gen) *Input { return g.probeCycleDetector() },
+	for _, mk := range []func(*txGen) *Input{
+		func(g *txGen) *Input { return g.probeUnsortedMultisig() },
+		func(g *txGen) *Input { return g.probeOntfsErrors(8) },
+		func(g *txGen) *Input { return g.probeCycleDetector() },
 	} {
-		g := newGen(c.Rng, c.Count)
-		in := mk(g)
-		o := runInput(c, in, idx)
-		idx++
-		c.Count("input:" + in.Kind)
-		if o.failed {
-			c.Count("probe-exhibited:" + in.Kind)
-		} else {
-			c.Note("probe " + in.Kind + " did not exhibit a difference on this run")
-		}
-		if o.member != nil {
-			signersCases(c, o.member, 4)
-		}
+		ins = append(ins, mk(newGen(c.Rng, c.Count)))
 	}
+	nProbes := len(ins) - nCorpus
 	// 4. generated histories
-	nChains := c.N(4, 40)
+	nChains := c.N(8, 60)
 	for i := 0; i < nChains; i++ {
 		g := newGen(c.Rng, c.Count)
 		in := g.chain(c.N(5, 8), c.N(7, 10))
 		if i%2 == 1 {
 			in.Repeat = 1
 		}
-		o := runInput(c, in, idx)
-		idx++
-		c.Count("input:chain")
+		ins = append(ins, in)
+	}
+	outs := runInputs(c, ins, 0, c.N(2, 4))
+	ms := int64(0)
+	for i, in := range ins {
+		o := outs[i]
+		c.Count("input:" + in.Kind)
+		if o.member != nil {
+			ms += o.member.Millis
+		}
+		if o.syncer != nil {
+			ms += o.syncer.Millis
+		}
+		if i < nCorpus {
+			continue
+		}
+		if i < nCorpus+nProbes {
+			if o.failed {
+				c.Count("probe-exhibited:" + in.Kind)
+			} else {
+				c.Note("probe " + in.Kind + " did not exhibit a difference on this run")
+			}
+			if o.member != nil {
+				signersCases(c, o.member, 4)
+			}
+			continue
+		}
 		if in.Restart > 0 {
 			c.Count("input:syncer-restarts")
 		}
@@ -373,12 +475,29 @@ func Run(c *hx.Ctx) {
 			continue
 		}
 		nTx, nRej, nFailTx := 0, 0, 0
+		kindOf := map[string]string{}
+		for _, blk := range in.Blocks {
+			for _, t := range blk {
+				if tx, err := types.TransactionFromRawBytes(hx.UnHex(t.Raw)); err == nil {
+					h := tx.Hash()
+					kindOf[h.ToHexString()] = t.Kind
+				}
+			}
+		}
 		for bi, b := range o.member.Blocks {
 			nRej += len(b.Rejected)
 			for _, n := range b.Exec.Notify {
 				nTx++
-				if strings.Contains(n, `"state":0`) {
+				var nv struct {
+					Tx    string `json:"tx"`
+					State byte   `json:"state"`
+				}
+				json.Unmarshal([]byte(n), &nv)
+				if nv.State == 0 {
 					nFailTx++
+					c.Count("outcome:failed:" + kindOf[nv.Tx])
+				} else {
+					c.Count("outcome:ok:" + kindOf[nv.Tx])
 				}
 			}
 			c.Nontrivial(fmt.Sprintf("chain%d/block%d/%s", i, bi, b.Exec.Hash))
@@ -393,7 +512,7 @@ func Run(c *hx.Ctx) {
 		for k := 0; k < nRej; k++ {
 			c.Count("offered-tx:refused-by-validator")
 		}
-		if i == 0 && len(o.member.Blocks) > 1 {
+		if i == nCorpus+nProbes && len(o.member.Blocks) > 1 {
 			b := o.member.Blocks[1]
 			c.Sample(map[string]interface{}{"height": b.Height, "root": b.Exec.Root, "hash": b.Exec.Hash,
 				"write_set_entries": b.Exec.WSLen, "notifications": len(b.Exec.Notify), "refused": b.Rejected})
@@ -403,4 +522,5 @@ func Run(c *hx.Ctx) {
 		}
 		signersCases(c, o.member, c.N(60, 200))
 	}
+	c.Note(fmt.Sprintf("node time (ledger work inside the node processes): %d ms for %d inputs", ms, len(ins)))
 }
